@@ -6,7 +6,7 @@
 
      (base)  BaseInit  => IndInv            apalache-mc check --cinit=ConstInit --init=BaseInit --inv=IndInv --length=0
      (step)  IndInv /\ Next => IndInv'      apalache-mc check --cinit=ConstInit --init=IndInit  --inv=IndInv --length=1
-     (goal)  IndInv => CacheSound /\ NeverUnverified /\ NoCrossTalk /\ OfflineWhenCached /\ ServedWhenCached /\ ErrorClassOK
+     (goal)  IndInv => CacheSound /\ NeverUnverified /\ NoCrossTalk /\ OfflineWhenCached /\ ServedWhenCached /\ ErrorClassOK /\ RetryBound
              (conjuncts of IndInv, nothing to check)
      (control) IndInvWeak (IndInv without the facts about the dump / rename boundaries) is NOT inductive: Apalache must
              report a counterexample for it, otherwise the step check proves nothing (vacuous IndInit).
@@ -31,8 +31,8 @@ ConstInit ==
     /\ NRetries = 3
     /\ ProbeRetries = 3
 
-ConstInitQuick ==          \* the quick tier's population: 4 ordinary loaders, 1 probe, 2 datasets
-    /\ Procs = {"p1", "p2", "p3", "p4"}
+ConstInitQuick ==          \* the quick tier's population: 3 ordinary loaders, 1 probe, 2 datasets
+    /\ Procs = {"p1", "p2", "p3"}
     /\ Probes = {"q1"}
     /\ Datasets = {"a", "b"}
     /\ UrlOf = [d \in {"a", "b"} |-> IF d = "a" THEN "ua" ELSE "ub"]
@@ -57,7 +57,36 @@ DumpOK(p)   == pc[p] \in {"dump", "dumpmid", "dumpclose", "rename"} => mem[p] \i
 RenameOK(p) == pc[p] = "rename" => tmp[p].pk = mem[p]                \* the temp file is a complete pickle of the array
 \* @type: (Str, <<Str, Str, Str>>) => Bool;
 ValueOK(p, v) == v[1] = "data" => (v[2] = cfg[p].d /\ (v[3] = "good" \/ S(p) \in taint \/ ~cfg[p].val))
-IdleOK(p)   == pc[p] \in {"idle", "start"} => (pend[p] = None /\ res[p] = None /\ mem[p] = "none" /\ ~hit[p] /\ att[p] = 0)
+IdleOK(p)   == pc[p] \in {"idle", "start"} => (pend[p] = None /\ res[p] = None /\ mem[p] = "none" /\ ~hit[p] /\ att[p] = 0
+                                                /\ fails[p] = 0 /\ last[p] = "")
+(* the retry loop: attempts, failures and the remaining budget move together; where a call stands determines what the latest
+   attempt met and what is on its way out (RetryBound is a consequence) *)
+NR(p)   == cfg[p].nret
+Payl(p) == last[p] \in Payloads
+\* @type: (Str, <<Str, Str, Str>>) => Bool;
+OutOK(p, v) == IF last[p] = "ok" THEN v = Data(cfg[p].d, "good")
+               ELSE (cfg[p].val => v = Exc("OSError"))
+RetryOK(p) ==
+    /\ fails[p] <= NR(p) + 1
+    /\ att[p] = fails[p] + (IF Payl(p) THEN 1 ELSE 0)
+    /\ (att[p] = 0) = (last[p] = "")
+    /\ IF fails[p] = NR(p) + 1
+       THEN /\ left[p] = 0 /\ last[p] \in Errors
+            /\ pc[p] \in {"cleanup", "ret", "done", "crashed"}
+            /\ pc[p] \in {"cleanup", "ret"} => pend[p] = Exc(last[p])
+            /\ pc[p] = "done" => res[p] = Exc(last[p])
+       ELSE left[p] = NR(p) - fails[p]
+    /\ pc[p] \in {"idle", "start", "mkdir", "read"} => att[p] = 0
+    /\ pc[p] = "dl" => ~Payl(p)
+    /\ pc[p] = "retry" => last[p] \in Errors
+    /\ pc[p] = "dlmid" => Payl(p)
+    /\ pc[p] = "verify" => cfg[p].val
+    /\ pc[p] \in {"verify", "parse"} => (Payl(p) /\ tmp[p].dl = KindOf(last[p]))
+    /\ pc[p] \in {"dump", "dumpmid", "dumpclose", "rename"} => (Payl(p) /\ mem[p] = KindOf(last[p]) /\ (cfg[p].val => last[p] = "ok"))
+    /\ (pc[p] \in {"cleanup", "ret"} /\ Payl(p)) => OutOK(p, pend[p])
+    /\ (pc[p] = "done" /\ Payl(p)) => OutOK(p, res[p])
+    /\ (pend[p][1] = "exc" /\ pend[p][2] \in Errors) => fails[p] = NR(p) + 1
+    /\ (res[p][1] = "exc" /\ res[p][2] \in Errors) => fails[p] = NR(p) + 1
 OfflineOK(p) == (hit[p] /\ ~Refresh(p)) =>
                     /\ att[p] = 0
                     /\ pc[p] \in {"read", "ret", "done", "crashed"}
@@ -65,7 +94,7 @@ OfflineOK(p) == (hit[p] /\ ~Refresh(p)) =>
                     /\ pc[p] = "ret" => (pend[p][1] = "data" /\ pend[p][2] = cfg[p].d)
                     /\ pc[p] = "done" => (res[p][1] = "data" /\ res[p][2] = cfg[p].d)
 
-PInvCore(p) == PTypes(p) /\ MemOK(p) /\ ParseOK(p) /\ ValueOK(p, pend[p]) /\ ValueOK(p, res[p]) /\ IdleOK(p) /\ OfflineOK(p)
+PInvCore(p) == PTypes(p) /\ MemOK(p) /\ ParseOK(p) /\ ValueOK(p, pend[p]) /\ ValueOK(p, res[p]) /\ IdleOK(p) /\ OfflineOK(p) /\ RetryOK(p)
 PInv(p) == PInvCore(p) /\ DumpOK(p) /\ RenameOK(p)
 
 Shape ==
@@ -75,7 +104,7 @@ Shape ==
     /\ taint \in SUBSET Slots
     /\ NetOK
 
-Goal == CacheSound /\ NeverUnverified /\ NoCrossTalk /\ OfflineWhenCached /\ ServedWhenCached /\ ErrorClassOK
+Goal == CacheSound /\ NeverUnverified /\ NoCrossTalk /\ OfflineWhenCached /\ ServedWhenCached /\ ErrorClassOK /\ RetryBound
 
 IndInv     == Shape /\ (\A p \in All : PInv(p)) /\ Goal
 IndInvWeak == Shape /\ (\A p \in All : PInvCore(p)) /\ Goal          \* negative control: must NOT be inductive
